@@ -378,7 +378,9 @@ def run(ctx):
     want = {'mail': 'smtp_mail', 'rcpt': 'smtp_rcpt', 'data': 'smtp_data', 'rset': 'smtp_rset', 'helo': 'smtp_helo', 'ehlo': 'smtp_ehlo'}
     r0.check(all(cmds.get(k) == v for k, v in want.items()) and sentinel, 'command-table', 'qmail-smtpd.c', 'table: %s' % cmds)
     cf = db.fn('commands.c', 'commands')
-    r0.check(bool(cf.calls(('case_equals', 'case_diffs', 'strcasecmp'))), 'commands-match-case-insensitively', 'commands.c:commands', '')
+    from rules import libtab as _ltc
+    for inst_, v_ in sorted(_ltc.commands_sites(db, rep, 'qmail-smtpd', 'qmail-smtpd.c', 'smtpcommands').items()):
+        r0.check(v_[0], inst_, v_[1], v_[2], v_[3])
 
     # ---- handler summaries over the abstract state (seenmail, rcptto.len>0, flagbarf)
     H = SmtpdHooks()
